@@ -1,38 +1,47 @@
 --------------------------- MODULE MC_ShowTable ---------------------------
 (* Model check of the modelled checker table against the modelled renderer table over the whole
    grid contexts x type classes x value variants x boxes, as the life cycle of one show:
-   declared -> (accepted | rejected) -> (shown | failed).  The invariants are the two clauses of the
-   property on the model.  Also exports the grid as cases.ndjson (one case per cell, with its boxes),
+   declared -> (accepted | rejected) -> (shown | failed), for the intended tables and for the tables
+   as they are in the code.  The invariants are the two clauses of the property on the intended
+   tables; the failures of the as-is tables are exported as design-level counterexamples.  Also exports the grid as cases.ndjson (one case per cell, with its boxes),
    the cells where the model violates the property (model_bad.ndjson) and model statistics. *)
 EXTENDS ShowTable, Json, SequencesExt
 CONSTANTS Tier          \* "quick": the base contexts; "thorough": all registered contexts
 
 Ctxs == IF Tier = "quick" THEN BaseCtxs ELSE AllCtxs
-Vals == {"full", "zero"}
+Vals == IF Tier = "quick" THEN {"full"} ELSE {"full", "zero"}
 Boxes(t) == <<"static", "any">> \o SetToSeq(Desc(t).impl)
 BoxSet(t) == {Boxes(t)[i] : i \in 1..Len(Boxes(t))}
 
-VARIABLES c, t, v, b, ph
-vars == <<c, t, v, b, ph>>
+\* m: which tables are explored - "intended" (must satisfy the property) or "asis" (the tables as the
+\* configuration says the code has them today; its failures are the design-level counterexamples,
+\* exported below and replayed into the real code - they are not asserted, so that TLC explores all of them)
+VARIABLES m, c, t, v, b, ph
+vars == <<m, c, t, v, b, ph>>
+Variants == IF AsIs = Intended THEN {"intended"} ELSE {"intended", "asis"}
+M == IF m = "asis" THEN AsIs ELSE Intended
 StaticType == IF b = "static" THEN t ELSE BoxType(b)      \* static type of the global v
 
-Init == c \in Ctxs /\ t \in TypeClasses /\ v \in Vals /\ b \in BoxSet(t) /\ ph = "declared"
-Accept  == ph = "declared" /\ CheckShow(AsIs, CtxOf(c)[1], StaticType)  /\ ph' = "accepted" /\ UNCHANGED <<c, t, v, b>>
-Reject  == ph = "declared" /\ ~CheckShow(AsIs, CtxOf(c)[1], StaticType) /\ ph' = "rejected" /\ UNCHANGED <<c, t, v, b>>
-ShowOk   == ph = "accepted" /\ ~ModelR(AsIs, c, t, v = "zero") /\ ph' = "shown"  /\ UNCHANGED <<c, t, v, b>>
-ShowFail == ph = "accepted" /\ ModelR(AsIs, c, t, v = "zero")  /\ ph' = "failed" /\ UNCHANGED <<c, t, v, b>>
+Init == m \in Variants /\ c \in Ctxs /\ t \in TypeClasses /\ v \in Vals /\ b \in BoxSet(t) /\ ph = "declared"
+Accept  == ph = "declared" /\ CheckShow(M, CtxOf(c)[1], StaticType)  /\ ph' = "accepted" /\ UNCHANGED <<m, c, t, v, b>>
+Reject  == ph = "declared" /\ ~CheckShow(M, CtxOf(c)[1], StaticType) /\ ph' = "rejected" /\ UNCHANGED <<m, c, t, v, b>>
+ShowOk   == ph = "accepted" /\ ~ModelR(M, c, t, v = "zero") /\ ph' = "shown"  /\ UNCHANGED <<m, c, t, v, b>>
+ShowFail == ph = "accepted" /\ ModelR(M, c, t, v = "zero")  /\ ph' = "failed" /\ UNCHANGED <<m, c, t, v, b>>
 Next == Accept \/ Reject \/ ShowOk \/ ShowFail
 
-\* B => ~R on the model
-ModelAcceptedNeverFails == ~(b = "static" /\ ph = "failed")
-\* R' => ~B on the model
-ModelBoxedFailsOnlyIfRejected == (b # "static" /\ ph = "failed") => ~ModelB(AsIs, c, t)
-\* a variable of type any always builds
+\* B => ~R on the intended tables
+ModelAcceptedNeverFails == m = "intended" => ~(b = "static" /\ ph = "failed")
+\* R' => ~B on the intended tables
+ModelBoxedFailsOnlyIfRejected == (m = "intended" /\ b # "static" /\ ph = "failed") => ~ModelB(Intended, c, t)
+\* a variable of type any always builds (both variants)
 ModelAnyBuilds == b = "any" => ph # "rejected"
 
-\* ---- exports (constant level; the LETs make TLC evaluate each sequence once)
 CellSet == Ctxs \X TypeClasses \X Vals
 BadCell(x) == ModelB(AsIs, x[1], x[2]) /\ ModelR(AsIs, x[1], x[2], x[3] = "zero")
+\* every failure of a statically typed show explored on the as-is tables is one of the exported counterexample cells
+AsIsFailureIsExported == (m = "asis" /\ b = "static" /\ ph = "failed") => BadCell(<<c, t, v>>)
+
+\* ---- exports (constant level; the LETs make TLC evaluate each sequence once)
 ASSUME LET S == SetToSeq(CellSet) IN
        ndJsonSerialize("cases.ndjson",
          [i \in 1..Len(S) |-> [id |-> i, ctx |-> S[i][1], type |-> S[i][2], val |-> S[i][3], boxes |-> Boxes(S[i][2])]])
@@ -40,8 +49,11 @@ ASSUME LET S == SetToSeq({x \in CellSet : BadCell(x)}) IN
        ndJsonSerialize("model_bad.ndjson", [i \in 1..Len(S) |-> [ctx |-> S[i][1], type |-> S[i][2], val |-> S[i][3]]])
 ASSUME ndJsonSerialize("model_stats.ndjson",
          <<[cells |-> Cardinality(CellSet),
-            contexts |-> Cardinality(Ctxs), type_classes |-> Cardinality(TypeClasses),
-            accepted |-> Cardinality({x \in CellSet : ModelB(AsIs, x[1], x[2])}),
-            render_fails |-> Cardinality({x \in CellSet : ModelR(AsIs, x[1], x[2], x[3] = "zero")}),
-            accepted_and_fails |-> Cardinality({x \in CellSet : BadCell(x)})]>>)
+            contexts |-> Cardinality(Ctxs), type_classes |-> Cardinality(TypeClasses), vals |-> Cardinality(Vals),
+            intended_accepted |-> Cardinality({x \in CellSet : ModelB(Intended, x[1], x[2])}),
+            intended_render_fails |-> Cardinality({x \in CellSet : ModelR(Intended, x[1], x[2], x[3] = "zero")}),
+            intended_accepted_and_fails |-> Cardinality({x \in CellSet : ModelB(Intended, x[1], x[2]) /\ ModelR(Intended, x[1], x[2], x[3] = "zero")}),
+            asis_accepted |-> Cardinality({x \in CellSet : ModelB(AsIs, x[1], x[2])}),
+            asis_render_fails |-> Cardinality({x \in CellSet : ModelR(AsIs, x[1], x[2], x[3] = "zero")}),
+            asis_accepted_and_fails |-> Cardinality({x \in CellSet : BadCell(x)})]>>)
 =============================================================================
